@@ -109,6 +109,57 @@ theorem agg_count_report (c : Cfg) (ops : List Op) :
   have g := hinv.reports a ha
   exact ⟨g.ne, by simp only [Agg.toStats, ht, Agg.mainStat, g.value]⟩
 
+/-! ### The window function itself (aggregator.go:170, `bucketOf`)
+
+"Accounted in exactly one window" needs the windows to PARTITION time: the bucket a statistic is
+filed under is the unique window-aligned interval `[b, b + window)` that contains its timestamp.
+Stated for the timestamps the code produces (`time.Now().UnixNano()`, non-negative); for a
+negative timestamp Go's truncating division rounds UP (`bucket_negative_timestamp_witness`), which
+is why `0 ≤ ts` is a hypothesis and not dropped. -/
+
+/-- the bucket of a statistic contains its timestamp -/
+theorem bucket_contains_timestamp (c : Cfg) (ts : Int) (hw : 0 < c.window) (hts : 0 ≤ ts) :
+    bucketOf c ts ≤ ts ∧ ts < bucketOf c ts + c.window := by
+  unfold bucketOf
+  have h1 := Int.mul_tdiv_add_tmod ts c.window
+  have h2 := Int.tmod_nonneg c.window hts
+  have h3 := Int.tmod_lt_of_pos ts hw
+  omega
+
+/-- … and it is the ONLY aligned window that does: windows never overlap -/
+theorem bucket_unique (c : Cfg) (ts k : Int) (hw : 0 < c.window) (hts : 0 ≤ ts)
+    (hk : c.window * k ≤ ts ∧ ts < c.window * k + c.window) : bucketOf c ts = c.window * k := by
+  have hb := bucket_contains_timestamp c ts hw hts
+  unfold bucketOf at *
+  generalize Int.tdiv ts c.window = q at *
+  have : q = k := by
+    rcases Int.lt_trichotomy q k with h | h | h
+    · have : c.window * (q + 1) ≤ c.window * k := Int.mul_le_mul_of_nonneg_left (by omega) (by omega)
+      rw [Int.mul_add] at this; omega
+    · exact h
+    · have : c.window * (k + 1) ≤ c.window * q := Int.mul_le_mul_of_nonneg_left (by omega) (by omega)
+      rw [Int.mul_add] at this; omega
+  rw [this]
+
+/-- a report's timestamp (the bucket start) is filed under the same window by a downstream
+aggregation with the same window length -/
+theorem bucket_idempotent (c : Cfg) (ts : Int) (hw : 0 < c.window) :
+    bucketOf c (bucketOf c ts) = bucketOf c ts := by
+  unfold bucketOf
+  rw [Int.mul_tdiv_cancel_left _ (by omega)]
+
+/-- later timestamps never land in an earlier window -/
+theorem bucket_monotone (c : Cfg) (a b : Int) (hw : 0 < c.window) (hab : a ≤ b) :
+    bucketOf c a ≤ bucketOf c b := by
+  unfold bucketOf
+  exact Int.mul_le_mul_of_nonneg_left (Int.tdiv_le_tdiv hw hab) (by omega)
+
+/-- Go's truncating division rounds a negative timestamp UP: the hypothesis `0 ≤ ts` is needed -/
+theorem bucket_negative_timestamp_witness :
+    ¬ (bucketOf { window := 10 } (-3) ≤ -3) := by decide
+
+example : bucketOf { window := 10 } 37 = 30 ∧ (0:Int) < 10 ∧ (0:Int) ≤ 37 := by decide
+
 /-- **The key is injective on everything the pipeline emits** (generated table
 `Gen.Stats.emitted`, every `stats.NewStatCount` / `stats.NewStatHistogram` call site; the key
 function is the model's `aggKey`). Adding a colliding statistic to pg-bifrost breaks this theorem. -/
